@@ -131,6 +131,21 @@ func init() {
 				if c.Tape.Choose(simrt.StGen, 2, 0) == 1 {
 					return repeatedInputOrderCase(c)
 				}
+				// FileCombinator: sources list their files in a tape-chosen order; on each
+				// out-port the files must leave in the order they arrived in
+				w, _ := componentCaseKind(c, "filecomb")
+				c.Sample = "FileCombinator order: " + sample(w)
+				c.Probe("combinator-order-shape")
+				ex := Eval(w)
+				inc := RunInc(w, c.Tape, nil, 0, IncOpts{KillAt: -1, Strategy: strategyOf(c.Tape), Trace: c.Trace})
+				c.Absorb(inc)
+				if v, ok := inconclusiveEnd(inc); ok {
+					return v
+				}
+				if !completedOK(inc) {
+					return Skipped(Viol("no-completion", "", "%s", endDesc(inc)))
+				}
+				return combinatorOrder(w, ex, inc)
 			}
 			mixed := c.Tape.Choose(simrt.StGen, 5, 0) == 1
 			if mixed {
